@@ -2,7 +2,7 @@
 
 A stream object is identified by its address.  Its content is a python list of byte values (ints or z3
 BV8); numbers written with operator<< (double, symbolic ints) are stored as *placeholders*
-  0x01 <decimal index> 0x02
+  0e+9NNNNNN   (a syntactically valid float literal that no real dump prints; NNNNNN = index)
 referring to a per-path token table, so that text can travel through strings, getline and the real parser
 code and be turned back into the same (possibly symbolic) term by operator>> / strtod.  Decimal rendering of
 doubles is therefore outside every claim (stated in the evidence).
@@ -188,15 +188,20 @@ def install(E):
     E.assign_string = assign_string
 
     # ---------------------------------------------------------------- tokens
+    def enc(i):
+        return list(("0e+9%06d" % i).encode())
+
     def token(st, kind, term):
+        if kind != "double":
+            raise EngineError("symbolic integer written to a text stream (unsupported)")
         t = list(st.user.get("tokens") or [])
         for i, (k, v) in enumerate(t):
             if k == kind and (v is term or (is_sym(v) and is_sym(term) and v.eq(term)) or
                               (not is_sym(v) and not is_sym(term) and v == term and type(v) is type(term))):
-                return [1] + list(str(i).encode()) + [2]
+                return enc(i)
         t.append((kind, term))
         st.user["tokens"] = t
-        return [1] + list(str(len(t) - 1).encode()) + [2]
+        return enc(len(t) - 1)
 
     def token_value(st, idx):
         t = st.user.get("tokens") or []
@@ -565,16 +570,13 @@ def install(E):
             fail(E, st, p, r, EOFBIT)
         return out
 
+    PH = re.compile(rb"[-+]?0e\+9(\d{6})$")
+
     def placeholder(out):
-        if len(out) >= 3 and out[0] == 1 and out[-1] == 2 and all(48 <= c <= 57 for c in out[1:-1]):
-            return int(bytes(out[1:-1]))
-        return None
+        m = PH.match(bytes(out))
+        return int(m.group(1)) if m else None
 
     def num_pred(c, out):
-        if out and out[0] == 1:
-            return out[-1] != 2
-        if c == 1:
-            return not out
         return chr(c) in "+-0123456789.eE"
 
     def parse_double_bytes(E, st, out):
@@ -625,8 +627,7 @@ def install(E):
             if r is None:
                 return a[0]
             start = r["pos"]
-            out = take_word(E, st, a[0], r, lambda c, o: (o and o[0] == 1 and o[-1] != 2) or (c == 1 and not o) or
-                            chr(c) in "0123456789" or (chr(c) in "+-" and not o))
+            out = take_word(E, st, a[0], r, lambda c, o: chr(c) in "0123456789" or (chr(c) in "+-" and not o))
             idx = placeholder(out)
             ty = ir.intT(bits)
             if idx is not None:
